@@ -279,7 +279,7 @@ pub fn hostile_parts(tier: Tier) -> Vec<(&'static str, u64, u64, &'static str)> 
         ("hostile/quantile", N_QMODELS * 65536, 8192, "quantile_function at every value of the probability type on 12 decoder models"),
         ("hostile/rawans", 65536 * 3 * 4, 16384, "AnsCoder<u8,u16>::from_raw_parts: all 65536 head values x 3 bulks x 4 operation groups"),
         ("hostile/rawrange", 576 * 4, 144, "RangeEncoder/RangeDecoder::from_raw_parts over boundary lower/range/situation/point values"),
-        ("hostile/huffman", super::c20b::huffman_total(), 64, "Huffman trees from every weight vector of length <= 5 over {0,1,2,5} (u32 and f32) + hostile floats: every symbol 0..=2n+3 and far outside, every bit string of length <= 7"),
+        ("hostile/huffman", super::c20b::huffman_total(), 64, "Huffman trees from every weight vector of length <= 5 over {0,1,2,5} (u32, f32, and a weight type whose Ord is inconsistent in 6 ways) + hostile floats: every symbol 0..=2n+3 and far outside, every bit string of length <= 7"),
         ("hostile/bits", super::c20b::bits_total(), 256, "bit coders over arbitrary words; Exp-Golomb<u8> on every bit string of length <= 18, boundary prefixes for u16/u32/u64"),
         ("hostile/seek", super::c20b::seek_total(), 64, "seek((pos, state)) with every position 0..=len+2 x 10 boundary states on ANS / range decoders over owned, borrowed, consuming, reversed backends"),
         ("hostile/chain", super::c20b::chain_total(), 128, "ChainCoder constructors over word strings of length <= 3 (+ longer) x 10 hostile operation orders (incl. precision changes in the middle of decoding)"),
